@@ -1080,7 +1080,27 @@ class Interp:
         if recv[0] == "listobj" and name in ("append", "insert", "extend"):
             h = self.heap[recv[1]]
             h["dyn"].append((name, tuple(args), st.pc))
-        if recv[0] == "dictobj" and name in ("update", "pop", "setdefault"):
+        if recv[0] == "dictobj" and name == "update":
+            h = self.heap[recv[1]]
+            pairs = dict(kwargs)
+            known = True
+            for a in args:
+                if a[0] == "dictobj" and not self.heap[a[1]]["dyn"]:
+                    pairs = dict(self.heap[a[1]]["items"], **pairs)
+                else:
+                    known = False
+            if known:
+                rel = st.pc[len(h["pc0"]):] if st.pc[:len(h["pc0"])] == h["pc0"] else st.pc
+                for k2, v2 in pairs.items():
+                    self._emit("store", st, e, act, target="sub", base=recv, idx=C(k2), value=v2,
+                               aug=None)
+                    old = h["items"].get(k2)
+                    if rel:
+                        v2 = ("phi", _conj(rel), v2, old if old is not None else ("undef", k2))
+                    h["items"][k2] = v2
+                return CONST_NONE
+            h["dyn"].append((("unknown", name), tuple(args), st.pc))
+        elif recv[0] == "dictobj" and name in ("pop", "setdefault", "clear", "popitem"):
             self.heap[recv[1]]["dyn"].append((("unknown", name), tuple(args), st.pc))
         if recv[0] == "dictobj" and name == "get" and args and is_const(args[0]):
             h = self.heap[recv[1]]
